@@ -64,6 +64,19 @@ Theorem C01_source_featured_body :
 Proof. exact tie_run_featured. Qed.
 Print Assumptions C01_source_featured_body.
 
+(* the statements before the loops start them at ip = 0, ops = 0 - the initial state RunCase.py_init / MachineSpec.init use *)
+Theorem C01_source_fast_start :
+  forall ww zb, exists en0, loop_env ww zb [] src_run_fast_prelude = Some en0 /\
+    lookup en0 v_run_fast_ip = Some (VInt 0) /\ lookup en0 v_run_fast_ops = Some (VInt 0).
+Proof. exact tie_run_fast_start. Qed.
+Print Assumptions C01_source_fast_start.
+
+Theorem C01_source_featured_start :
+  forall ww zb, exists en0, loop_env ww zb featured_params src_run_featured_prelude = Some en0 /\
+    lookup en0 v_run_featured_ip = Some (VInt 0).
+Proof. exact tie_run_featured_start. Qed.
+Print Assumptions C01_source_featured_start.
+
 (* ---- composed with the simulation lemmas of Proofs/EngPyProps.v: the current source refines MachineSpec.step ------ *)
 Theorem C01_source_fast_step :
   forall ww, 3 <= ww -> forall sg zb s ps,
